@@ -125,7 +125,7 @@ def run(ck):
                 if ty in (0x81, 0x88, 0x89, 0x90, 0x92) and not ini: why = "startup type not kept for the library's own dialogue"
             if why:
                 bad += 1
-                key = "dispatch.MSG_VENDOR" if ty == 0x93 and not debug else "dispatch.type-%02x" % ty
+                key = "dispatch.type-%02x" % ty
                 ck.violation(key, {"property": "C06", "debug_mode": debug, "message": hx, "queues": il, "reason": why})
         else:
             # FIFO / bound / once: replay the spec "newest 128 of everything added, pops oldest first"
